@@ -19,7 +19,7 @@ from hv.builders import envelope as benv
 from hv.builders import hdd as bhdd
 from hv.builders import vhdx as bvhdx
 from hv.builders import vmdk as bvmdk
-from hv.core import Outcome, lib
+from hv.core import DEBUG_LOG_ENV, Outcome, lib
 from hv.props import c12, c20
 
 ID = "C09"
@@ -61,7 +61,7 @@ VARIANT_DISTINCT_SEEDS = True  # the two variants draw different workloads
 def variants(tier):
     # the library's logging switches are read at import time
     return [{"name": "default", "env": {}},
-            {"name": "debug-logging", "env": {"DISSECT_LOG_VMDK": "DEBUG", "DISSECT_LOG_VHDX": "DEBUG"}}]
+            {"name": "debug-logging", "env": DEBUG_LOG_ENV}]
 
 
 @st.composite
@@ -72,7 +72,8 @@ def strategy_(draw, tier):
                                              "envelope-decrypt", "cli", "cli-existing-output", "cli-wrong-key", "vmtar-list", "vmtar-extract", "keystore",
                                              "vmtar-modes", "vhdx-abs-parent", "hyperv-dirty", "rw-handles", "envelope-decrypt-big", "cli-big",
                                              "cli-output-dir", "cli-output-evidence-dir", "cli-relative-output", "hyperv-fileobject",
-                                             "vmdk-rw-descriptor-handle", "vmtar-empty", "vmtar-odd-handles", "hdd-backup-descriptor", "cli-decomposed-name", "qcow2-bad-deflate", "vmdk-missing-parent"]),
+                                             "vmdk-rw-descriptor-handle", "vmtar-empty", "vmtar-odd-handles", "hdd-backup-descriptor", "cli-decomposed-name", "qcow2-bad-deflate", "vmdk-missing-parent",
+                                             "hdd-in-use", "vmdk-short-flat", "vhd-gzip-big"]),
                             min_size=2, max_size=10))
         return {"workload": w, "ops": ops, "n": draw(st.integers(0, 1 << 20))}
     mod = importlib.import_module(f"hv.props.{w.lower()}")
@@ -115,6 +116,20 @@ def gzip_of_nothing() -> bytes:
     return gzip.compress(b"", 6, mtime=0)
 
 
+_BIG_VHD_GZ = []
+
+
+def big_vhd_gz() -> bytes:
+    if not _BIG_VHD_GZ:
+        import gzip
+
+        from hv.builders import vhd as bvhd
+
+        size = 33 << 20
+        _BIG_VHD_GZ.append(gzip.compress(bytes(size) + bvhd.footer_bytes({"kind": "fixed", "size": size}), 1, mtime=0))
+    return _BIG_VHD_GZ[0]
+
+
 def build_evidence(d, n):
     """An evidence directory with one artefact of every path-opening kind.  Returns a dict of paths / keys."""
     info = {}
@@ -150,6 +165,17 @@ def build_evidence(d, n):
         f.write(bvmdk.descriptor_text({"extents": [{"sectors": big // 512, "type": "VMFS" if n % 2 else "FLAT", "file": "big-flat.vmdk", "offset": 0 if n % 2 == 0 else None}],
                                        "create_type": "vmfs"}))
     info["vmdk-big"] = os.path.join(d, "vm", "big.vmdk")
+    # a flat extent that lost its tail on the way (a thin / interrupted copy): shorter than its descriptor line says, not empty
+    with open(os.path.join(d, "vm", "short-flat.vmdk"), "wb") as f:
+        f.write(bytes(range(256)) * (2 * (20 + n % 20)))
+    with open(os.path.join(d, "vm", "short.vmdk"), "w") as f:
+        f.write(bvmdk.descriptor_text({"extents": [{"sectors": 64, "type": "VMFS" if n % 2 else "FLAT", "file": "short-flat.vmdk", "offset": 0 if n % 2 == 0 else None}],
+                                       "create_type": "monolithicFlat"}))
+    info["vmdk-short"] = os.path.join(d, "vm", "short.vmdk")
+    # a fixed VHD of 33 MiB kept gzip-compressed (the caller opens it with gzip.open)
+    with open(os.path.join(d, "vm", "fixed.vhd.gz"), "wb") as f:
+        f.write(big_vhd_gz())
+    info["vhd-gz"] = os.path.join(d, "vm", "fixed.vhd.gz")
     # VHDX child + parent
     os.makedirs(os.path.join(d, "hv"))
     bvhdx.build(c12.VHDX_SPEC)[0].write_to(os.path.join(d, "hv", "parent.vhdx"))
@@ -170,6 +196,16 @@ def build_evidence(d, n):
             "shots": [{"guid": g1, "parent": bhdd.NULL_GUID}, {"guid": bhdd.DEFAULT_TOP, "parent": g1}]}))
     info["hdd"] = root
     info["hdd-guid"] = g1
+    # the same disk acquired while the VM was running (or after a crash): the images still carry the in-use mark
+    run_root = os.path.join(d, "p.pvm", "running.hdd")
+    os.makedirs(run_root)
+    in_use = bhdd.build({"version": 2, "cluster_sectors": 8, "size_sectors": 24, "bat_entries": 3, "first_block_offset": 8,
+                         "in_use": True, "alloc": [[0, 8], [2, 16]], "layer": 0})[0].materialize()
+    for g in (g1, bhdd.DEFAULT_TOP):
+        with open(os.path.join(run_root, f"disk.hdd.0.{{{g}}}.hds"), "wb") as f:
+            f.write(in_use)
+    shutil.copy(os.path.join(root, "DiskDescriptor.xml"), os.path.join(run_root, "DiskDescriptor.xml"))
+    info["hdd-in-use"] = run_root
     # .hdd directories caught in the middle of a descriptor update: only the .Backup copy, or an empty descriptor next to it
     desc_text = open(os.path.join(root, "DiskDescriptor.xml")).read()
     info["hdd-broken"] = []
@@ -369,6 +405,26 @@ def run_scenario(spec, out):
                                 q.read(512)
                             except Exception:  # noqa: BLE001 - failing to inflate is fine
                                 pass
+                    elif op == "hdd-in-use":
+                        s = HDD(Path(info["hdd-in-use"])).open()
+                        opened.append(s)
+                        s.read(8192)
+                    elif op == "vmdk-short-flat":
+                        v = VMDK(Path(info["vmdk-short"]))
+                        opened.append(v)
+                        try:
+                            v.read(64 * 512)
+                        except Exception:  # noqa: BLE001 - what a read beyond the short file gives is not this property's business
+                            pass
+                    elif op == "vhd-gzip-big":
+                        import gzip
+
+                        from dissect.hypervisor.disk.vhd import VHD
+
+                        with gzip.open(info["vhd-gz"], "rb") as gz:
+                            v = VHD(gz)
+                            v.seek(v.size - 4096)
+                            v.read(4096)
                     elif op == "vmdk-missing-parent":
                         for pth in info["vmdk-orphans"]:
                             try:
